@@ -683,6 +683,18 @@ func c08isLineSubsequence(out, in string) bool {
 func TestVerifC08Util(t *testing.T) {
 	r := vh.Start("C08")
 	defer r.Finish()
+	{
+		irng := rand.New(rand.NewSource(r.Seed + 77))
+		var cs []string
+		for i := 0; i < r.N(200, 2000); i++ {
+			s, _ := c08sdp(irng)
+			if irng.Intn(4) == 0 {
+				s = c08mutate(irng, s)
+			}
+			cs = append(cs, s)
+		}
+		r.Independent("strip", "StripLocalAddresses", cs, func(c string) string { return vh.Hex([]byte(StripLocalAddresses(c))) })
+	}
 	rng := r.Rng
 
 	c08isLocalAll(r, rng)
